@@ -13,6 +13,7 @@ struct NormalOpts {
 	int present_mode = 0;      // 0 generated subset, 1 all boards present, 2 no configured board present
 	int max_unknown = 2;
 	bool allow_table_change = false;
+	bool allow_drop = false;          // a node may leave the bus at the table change
 	bool allow_feature_mismatch = false;
 	bool allow_capacity = false;
 	unsigned flush_interval = 0;
@@ -40,6 +41,13 @@ struct Normal {
 		if (o.allow_table_change && dp.chance(50)) {
 			bus.table_change_at = dp.range(0, (int) bus.nodes[0].children.size());
 			bus.table_changes_left = dp.range(1, 2);
+			if (o.allow_drop && dp.chance(128)) {
+				// a leaf directly below the root disappears when the table changes
+				std::vector<int> leaves;
+				for (int ch : bus.nodes[0].children)
+					if (bus.nodes[(size_t) ch].children.empty()) leaves.push_back(ch);
+				if (!leaves.empty()) bus.drop_on_change = leaves[dp.pick((unsigned) leaves.size())];
+			}
 		}
 		if (o.allow_feature_mismatch && dp.chance(50)) bus.feature_mismatch = true;
 		if (o.allow_capacity && dp.chance(80)) bus.capacity = dp.u8();
